@@ -212,6 +212,11 @@ def render(d, style):
         text = repr(d)
         text = text.replace(repr(0.25), "1/4").replace(repr(5 / 3), "5/3").replace(repr(0.75), "(1 - 1/4)").replace(repr(0.5), "2**-1")
         return "# expressions instead of literals\n" + text + "\n"
+    if style == "calls":
+        # the same dictionary denoted with calls of built-in functions, and the text indented by blanks and a tab
+        text = repr(d)
+        text = text.replace(repr(0.25), 'float("0.25")').replace(repr(0.5), "float(1) / int('2')").replace("[(1, ", "[(int(True), ")
+        return "  \t dict(" + text + ")\n"
     raise ValueError(style)
 
 
